@@ -586,6 +586,9 @@ func (e *Env) callContract(fc *FuncContract, key string, sig *types.Signature, r
 			if _, isArr := lf.Typ.Underlying().(*types.Array); isArr {
 				return // inline arrays have no header in the heap; their cells live in Mem
 			}
+			if _, isGhost := ghostFieldTable[lf.Owner][lf.Field]; isGhost && stableGhost[lf.Field] && !assignsGhost(fc, lf.Field) {
+				return // stable ghost field: this callee has no ghost clause assigning it
+			}
 			for _, c := range leafComps(lf.K, lf.ElemU) {
 				havocs = append(havocs, hv{heapMap(lf.Owner, lf.Field) + c.Suf, c.S, subID(r.T, steps)})
 			}
@@ -1118,4 +1121,14 @@ func (e *Env) ownTerms(r Value, actuals []Value, oldMap func(string, Sort) *Term
 		out = append(out, Or(alts...))
 	})
 	return out
+}
+
+
+func assignsGhost(fc *FuncContract, field string) bool {
+	for _, cl := range fc.Clauses {
+		if cl.Kind == "ghost" && cl.TExpr != nil && cl.TExpr.Kind == "sel" && cl.TExpr.Name == field {
+			return true
+		}
+	}
+	return false
 }
